@@ -321,8 +321,10 @@ def reset_rules(R, ctx):
                 swaps.append(bb)
     if not swaps:
         raise CheckError('writer swap not found in the rotation function')
-    ok = bool(resets) and all(must_pass_after(b, s, resets, avoid=try_break_blocks(b)) for s in swaps)
-    R.check('R08.4', f"{b.path}|reset-after-swap", ok, "reset_size_and_date follows the writer swap on every non-error path",
+    # on EVERY path after the swap - also one that ends with an error of a later step (e.g. a failing cleanup): the new file is
+    # mounted at that point, so its counters must be the new file's, or the next record rotates again / never
+    ok = bool(resets) and all(must_pass_after(b, s, resets) for s in swaps)
+    R.check('R08.4', f"{b.path}|reset-after-swap", ok, "reset_size_and_date follows the writer swap on every path, before any later fallible step",
             "after the writer swap the size/date state is not reset on every path (the new file would inherit the old size and rotate at once, or never)",
             where=b.loc(swaps[0]))
     # reset stores 0 into current_size for both size-bearing variants
